@@ -71,7 +71,43 @@ def run(ck):
     rule_b(ck, prog, mg, gs)
     rule_m(ck, prog, mg, gs)
     rule_p(ck, prog, mg, gs)
+    rule_u(ck, prog, mg)
     controls(ck, prog)
+
+
+# ---- Rule U ---------------------------------------------------------------------------------------
+
+def rule_u(ck, prog, mg):
+    """No decoded content of an accepted proof is left unused: (1) a batch Merkle opening has one leaf per position and every node of
+    every node vector is consumed; (2) the presence of the optional GKR proof is examined on every accepting path (a proof that carries one
+    for an AIR that does not call for it differs in decoded content from the accepted one and must be refused)."""
+    from . import c10
+    ck.rule("U", "no decoded content of the proof is left unused: openings fully consumed, presence of optional components decided")
+    c10.opening_fully_used(ck, prog, None, "U")
+    PROOF = "winter_air::proof::Proof"
+    ok, where = False, None
+    for name in ("winter_verifier::channel::VerifierChannel::new", "winter_verifier::perform_verification"):
+        f = prog.inl(prog.fn(name))
+        g = flow(f)
+        acc = accept_nodes(f)
+        exam = []
+        for b, t in f.calls():
+            cn = callee_name(t) or ""
+            if cn.endswith(("Option::is_some", "Option::is_none", "Option::ok_or", "Option::ok_or_else", "Option::is_some_and")) and t["args"]:
+                w = g.walk(ops=t["args"][:1], at=(b, T), through=lambda tt: (callee_name(tt) or "").endswith(("VerifierChannel::read_gkr_proof", "Option::as_ref", "Option::take")))
+                if any(n[0] == "f" and n[2] == "gkr_proof" for n in w) or any((callee_name(f.term(n[1])) or "").endswith("read_gkr_proof") for n in w if n[0] == "c"):
+                    exam.append((b, T))
+        for b, i, st in f.assigns():
+            if st["rv"]["k"] == "discr":
+                w = g.walk(places=[st["rv"]["p"]], at=(b, i), through=lambda tt: (callee_name(tt) or "").endswith(("VerifierChannel::read_gkr_proof", "Option::as_ref", "Option::take")))
+                if any(n[0] == "f" and n[2] == "gkr_proof" for n in w) or any((callee_name(f.term(n[1])) or "").endswith("read_gkr_proof") for n in w if n[0] == "c"):
+                    exam.append((b, S))
+        if exam and acc and must_between(f, None, exam, acc)[0]:
+            ok, where = True, name
+    ck.ob("U", "gkr_proof:presence-decided", ok,
+          "on every accepting path the verifier examines whether the proof carries a GKR proof (so that an unsolicited one can be refused); "
+          "examined only under `has_lagrange_kernel_aux_column` it is unused, unbound content for every other AIR",
+          loc=prog.fn("winter_verifier::channel::VerifierChannel::new").loc())
 
 
 # ---- Rule B --------------------------------------------------------------------------------------
